@@ -91,9 +91,30 @@ pub fn decode_int_lazy(ty: u8, mode: Mode, c: &[u8]) -> Option<Option<String>> {
     })
 }
 
+/// The convenience readers of one type (Constructed::take_uN / take_opt_uN, Content::to_uN, the
+/// bool and null shortcuts) are the same codec as Primitive::to_*: whatever `r` says, they all say.
+fn family_agrees(ty: u8, mode: Mode, c: &[u8], r: &Option<Option<String>>) -> bool {
+    if c.len() > 20 { return true }
+    let want: Option<String> = match r { Some(Some(v)) => Some(v.clone()), Some(None) => None, None => return true };
+    let mut d = vec![0x02u8]; d.extend(crate::gen::ref_len_octets(c.len())); d.extend_from_slice(c);
+    let dec = |f: &dyn Fn(&mut Constructed<bcder::decode::SliceSource>) -> Result<String, bcder::decode::DecodeError<std::convert::Infallible>>| -> Option<String> {
+        Constructed::decode(d.as_slice().into_source(), mode, |cons| f(cons)).ok() };
+    let got: Vec<Option<String>> = match ty {
+        5 => vec![dec(&|k| k.take_u8().map(|v| v.to_string())), dec(&|k| k.take_opt_u8().map(|v| v.unwrap().to_string())), dec(&|k| k.take_value_if(Tag::INTEGER, |ct| ct.to_u8()).map(|v| v.to_string()))],
+        6 => vec![dec(&|k| k.take_u16().map(|v| v.to_string())), dec(&|k| k.take_opt_u16().map(|v| v.unwrap().to_string())), dec(&|k| k.take_value_if(Tag::INTEGER, |ct| ct.to_u16()).map(|v| v.to_string()))],
+        7 => vec![dec(&|k| k.take_u32().map(|v| v.to_string())), dec(&|k| k.take_opt_u32().map(|v| v.unwrap().to_string())), dec(&|k| k.take_value_if(Tag::INTEGER, |ct| ct.to_u32()).map(|v| v.to_string()))],
+        8 => vec![dec(&|k| k.take_u64().map(|v| v.to_string())), dec(&|k| k.take_opt_u64().map(|v| v.unwrap().to_string())), dec(&|k| k.take_value_if(Tag::INTEGER, |ct| ct.to_u64()).map(|v| v.to_string()))],
+        _ => vec![],
+    };
+    got.iter().all(|g| *g == want)
+}
+
 fn dec_case(em: &mut Emitter, ty: u8, mode: u8, c: &[u8]) {
     em.case(1401, &[num_arg(ty), num_arg(mode), bytes_arg(c)], || {
         let r = decode_int(ty, mode_of(mode), c);
+        if catch(|| family_agrees(ty, mode_of(mode), c, &r)) != Some(true) {
+            return (Ints::new().n(-8), Oracle::Fail("convenience-readers-of-the-type-disagree-with-the-primitive-accessor".into()), true)
+        }
         // boundary contents also through an incremental source: the codec must not depend on delivery
         if c.len() >= 2 && c.len() < 120 && (c[0] == 0 || c[0] == 0xff || c[1] & 0x7f == 0) {
             let rl = decode_int_lazy(ty, mode_of(mode), c);
@@ -117,6 +138,13 @@ fn dec_case(em: &mut Emitter, ty: u8, mode: u8, c: &[u8]) {
 fn bool_case(em: &mut Emitter, mode: u8, c: &[u8]) {
     em.case(1402, &[num_arg(mode), bytes_arg(c)], || {
         let r = catch(|| Primitive::decode_slice(c, mode_of(mode), |p| p.to_bool()).ok());
+        // Constructed::take_bool / take_opt_bool are the same codec
+        if c.len() < 20 { if let Some(rv) = &r {
+            let mut d = vec![0x01u8, c.len() as u8]; d.extend_from_slice(c);
+            let a = catch(|| bcder::decode::Constructed::decode(d.as_slice().into_source(), mode_of(mode), |k| k.take_bool()).ok());
+            let b = catch(|| bcder::decode::Constructed::decode(d.as_slice().into_source(), mode_of(mode), |k| k.take_opt_bool()).ok().map(|v| v.unwrap()));
+            if a != Some(*rv) || b != Some(*rv) { return (Ints::new().n(-8), Oracle::Fail("take_bool-disagrees-with-to_bool".into()), true) }
+        } }
         let exp = if c.len() != 1 { None } else if mode == 0 { Some(c[0] != 0) }
                   else if c[0] == 0 { Some(false) } else if c[0] == 0xff { Some(true) } else { None };
         match r {
@@ -132,6 +160,14 @@ fn bool_case(em: &mut Emitter, mode: u8, c: &[u8]) {
 fn null_case(em: &mut Emitter, c: &[u8]) {
     em.case(1403, &[bytes_arg(c)], || {
         let r = catch(|| Primitive::decode_slice(c, Mode::Ber, |p| p.to_null()).is_ok());
+        // Constructed::take_null / take_opt_null / Content::to_null are the same codec, in every mode
+        if c.len() < 20 { if let Some(rv) = r { for m in [Mode::Ber, Mode::Cer, Mode::Der] {
+            let mut d = vec![0x05u8, c.len() as u8]; d.extend_from_slice(c);
+            let a = catch(|| Constructed::decode(d.as_slice().into_source(), m, |k| k.take_null()).is_ok());
+            let b = catch(|| Constructed::decode(d.as_slice().into_source(), m, |k| k.take_opt_null()).is_ok());
+            let e = catch(|| Constructed::decode(d.as_slice().into_source(), m, |k| k.take_value_if(Tag::NULL, |ct| ct.to_null())).is_ok());
+            if a != Some(rv) || b != Some(rv) || e != Some(rv) { return (Ints::new().n(-8), Oracle::Fail("take_null-disagrees-with-to_null".into()), true) }
+        } } }
         match r {
             Some(ok) => (Ints::new().n(if ok { R_OK } else { R_CERR }),
                          if ok == c.is_empty() { Oracle::Pass } else { Oracle::Fail("null".into()) }, true),
